@@ -31,6 +31,10 @@ def wall_for(cfg):
     elif kind == "slant":
         # slanted lower and upper targets
         w = [(rmin, zmin + 0.03), (rmin, zmax - 0.02), (rmax, zmax + 0.04), (rmax, zmin - 0.05)]
+    elif kind == "steep":
+        # the floor is strongly slanted with respect to the flux surfaces of the outer leg: with a fine target spacing some contours of a non-orthogonal
+        # grid have to be extended before they reach the wall
+        w = [(rmin, -0.3), (rmax, -0.65), (rmax, zmax), (rmin, zmax)]
     elif kind == "poly":
         w = [(rmin, zmin), (rmin - 0.02, -0.2), (rmin - 0.03, 0.0), (rmin - 0.02, 0.2), (rmin, zmax), (1.4, zmax + 0.01),
              (1.6, zmax + 0.01), (rmax, zmax), (rmax + 0.02, 0.2), (rmax + 0.03, 0.0), (rmax + 0.02, -0.2), (rmax, zmin),
